@@ -764,8 +764,22 @@ def run_scrape(case, part):
 # ----------------------------------------------------------------------------------------------- crawl
 def crawl_case(rng):
     ctype, body = rng.choice(DOCS[:2])
-    hostile = rng.choice(['mutated-response', 'mutated-body', 'garbage', 'hostile-links', 'hostile-fields', 'hostile-fields'])
-    if hostile == 'hostile-fields':
+    hostile = rng.choice(['mutated-response', 'mutated-body', 'garbage', 'hostile-links', 'hostile-fields', 'hostile-fields', 'hostile-markup',
+                          'hostile-markup', 'redirect-307'])
+    if hostile == 'hostile-markup':
+        # every link-bearing element and attribute, with values that are attribute names, odd file names, non-URLs: what is
+        # scraped here goes through the filters and into the URL table (link type, inline flag, base joins)
+        b = ('<html><head>%s</head><body>%s</body></html>' % (''.join(gen_element(rng) for _ in range(rng.randrange(0, 3))),
+                                                            ''.join(gen_element(rng) for _ in range(rng.randrange(1, 8))))).encode('utf-8', 'replace')
+        raw = b'HTTP/1.1 200 OK\r\nContent-Type: text/html\r\nContent-Length: ' + str(len(b)).encode() + b'\r\n\r\n' + b
+        ctype = b'text/html'
+    elif hostile == 'redirect-307':
+        # a redirect that makes the client repeat its request (body included) elsewhere
+        raw = (b'HTTP/1.1 %d Again\r\nLocation: %s\r\nContent-Length: 0\r\n\r\n' %
+               (rng.choice([307, 308, 307, 302, 303]), rng.choice([b'/sentinel.html', b'/hostile?again', b'http://a.test/sentinel.html', b'//a.test/x'])))
+    if hostile in ('hostile-markup', 'redirect-307'):
+        pass
+    elif hostile == 'hostile-fields':
         # a well-framed response whose header fields are what the file writer, the timestamp / continue logic and the
         # naming options compute with
         b = body
@@ -788,11 +802,14 @@ def crawl_case(rng):
                  b'/' + b'x' * 3000, b'/a/../../..', b'http://\xe2\x98\x83.test/', b'/q?' + b'a=b&' * 500, b'mailto:x', b'/con.', b'/nul.txt ']
         b = b'<html><body>' + b''.join(b'<a href="' + l + b'">x</a>' for l in rng.sample(links, rng.randrange(1, 6))) + b'</body></html>'
         raw = b'HTTP/1.1 200 OK\r\nContent-Type: text/html\r\nContent-Length: ' + str(len(b)).encode() + b'\r\n\r\n' + b
-    options = [o for o in ['--timestamping', '--continue', '--save-headers', '--content-disposition', '--adjust-extension',
+    options = [o for o in ['--timestamping', '--continue', '--save-headers', '--post-data=a=b&c=d', '--strip-session-id', '--escaped-fragment', '--content-disposition', '--adjust-extension',
                            '--trust-server-names', '--no-use-server-timestamps', '--page-requisites', '--no-clobber']
                if rng.random() < 0.25]
     if '--timestamping' in options and '--no-clobber' in options:
         options.remove('--no-clobber')        # (the option parser refuses the pair)
+    if rng.random() < 0.08:
+        # one output stream for all documents
+        options = [o for o in options if o not in ('--timestamping', '--continue', '--no-clobber')] + ['-O', '@OUT@']
     warc = rng.random() < 0.3
     if warc:
         # (the option parser refuses WARC output together with these)
@@ -810,6 +827,26 @@ def crawl_case(rng):
 
 LAYOUT_URLS = ['/d', '/d/e', '/d/e/f.html', '/d/e/f.html/g', '/d/', '/d/e/', '/k/l/m', '/k/l', '/k', '/k/l/m/n/o', '/index.html', '/index.html/x',
                '/d/e/f.html/g/', '/k/l/']
+
+MARKUP_VALUES = ['data', 'src', 'href', 'code', 'codebase', 'archive', 'classid', 'style', 'zzz', 'x.css', 'y.js', 'p.html', 'pic.png', '', ' ', '/', '//',
+                 'http://[bad', '#', '?', 'javascript:x', 'data:,', 'a b', 'ftp://a.test/f', 'mailto:x', '../..', 'x' * 300, 'httpx://y/z', 'http+unix://s/x',
+                 '/sentinel.html', 'http://a.test/sentinel.html#!frag', '/p;jsessionid=ABC?sid=1', '\u2028', '&#0;', '%00', '/a\tb', 'HTTP://A.TEST/',
+                 'file:///etc/passwd', 'about:blank', '//a.test:99999/', 'http://a.test:-1/', 'C:\\x', '.', '..', '~', '*']
+MARKUP_ELEMENTS = ['<object codebase="{0}" data="{1}" classid="{2}" archive="{1} {2}"></object>', '<applet codebase="{0}" code="{1}" archive="{2}"></applet>',
+                   '<embed src="{0}">', '<img src="{0}" srcset="{1} 1x, {2} 2x" longdesc="{1}" usemap="{2}">', '<meta http-equiv="refresh" content="3; url={0}">',
+                   '<base href="{0}">', '<link rel="{1}" href="{0}">', '<form action="{0}"></form>', '<a href="{0}" ping="{1}">t</a>', '<body background="{0}">',
+                   '<script src="{0}"></script>', '<iframe src="{0}"></iframe>', '<input type="image" src="{0}">', '<video poster="{0}" src="{1}"></video>',
+                   '<source srcset="{0}" src="{1}">', '<table background="{0}"><td background="{1}"></td></table>', '<q cite="{0}">q</q>',
+                   '<div style="background:url({0})"></div>', '<object data="{0}"><param name="{1}" value="{2}"></object>', '<frame src="{0}">',
+                   '<area href="{0}">', '<bgsound src="{0}">', '<layer src="{0}">', '<overlay src="{0}">', '<script>var u = "{0}"; load(\'{1}\');</script>',
+                   '<style>@import "{0}"; a {{ background: url({1}) }}</style>', '<a href="{0}" rel="nofollow">n</a>', '<head profile="{0}">',
+                   '<blockquote cite="{0}"></blockquote>', '<ins cite="{0}"></ins>', '<html manifest="{0}">', '<button formaction="{0}"></button>',
+                   '<object codebase="{0}" data="{0}"></object>']
+
+
+def gen_element(rng):
+    return rng.choice(MARKUP_ELEMENTS).format(rng.choice(MARKUP_VALUES), rng.choice(MARKUP_VALUES), rng.choice(MARKUP_VALUES))
+
 
 HOSTILE_FIELDS = [
     b'Last-Modified: garbage', b'Last-Modified: ', b'Last-Modified: Mon, 31 Feb 2020 25:61:61 GMT', b'Last-Modified: Thu, 01 Jan 99999 00:00:00 GMT',
@@ -849,7 +886,7 @@ def run_crawl_case(case, part):
     try:
         db = os.path.join(tmp, 'crawl.db')
         argv = ['http://a.test/', '-r', '--level', '3', '--no-robots', '--database', db, '-P', tmp, '--waitretry', '0',
-                '--tries', '3', '--timeout', '5'] + list(case.get('options') or [])
+                '--tries', '3', '--timeout', '5'] + [os.path.join(tmp, 'all-documents.bin') if o == '@OUT@' else o for o in (case.get('options') or [])]
         if case.get('concurrent', 1) > 1:
             argv += ['--concurrent', str(case['concurrent'])]
         if case.get('layout'):
@@ -931,7 +968,7 @@ def ftpcrawl_case(rng):
             'connections': rng.choice(['all', 'first', 'first-two', 'odd']), 'recursive': rng.random() < 0.5,
             'options': [o for o in ['--continue', '--timestamping', '--preserve-permissions', '--no-remove-listing', '--retr-symlinks=off']
                         if rng.random() < 0.2],
-            'mlsd': rng.random() < 0.3, 'concurrent': rng.choice([1, 1, 3])}
+            'mlsd': rng.random() < 0.3, 'concurrent': rng.choice([1, 1, 3]), 'second_run': rng.random() < 0.5}
 
 
 def run_ftpcrawl(case, part):
@@ -964,6 +1001,11 @@ def run_ftpcrawl(case, part):
         if case['recursive']:
             argv += ['-r', '--level', '3']
         res = crawl.run_app(argv, {'f.test': addrs[0]})
+        if case.get('second_run') and not (res['crashed'] or res['exit_status'] in (None, 1)):
+            # the same command over the files of the first run (--continue, --timestamping meet existing local files)
+            part.count('ftp_crawl_second_runs')
+            os.remove(db)
+            res = crawl.run_app(argv, {'f.test': addrs[0]})
         rows = crawl.read_table(db) if os.path.exists(db) else []
     finally:
         logging.disable(logging.CRITICAL)
